@@ -213,6 +213,7 @@ KINDS = {
     "exception": lambda: ValueError("x"), "iterator": lambda: iter([1, 2]), "generator": lambda: _gen(),
     "memoryview": lambda: memoryview(b"ab"), "dict_keys": lambda: {"a": 1}.keys(), "bigint_sub": lambda: MyInt(10 ** 30),
     "bool_like": lambda: MyInt(1),
+    "module_named_module": lambda: types.ModuleType("module"), "module_unregistered": lambda: types.ModuleType("not_in_sys_modules"),
     # falsy at their owner: nothing about finding or counting a proxy may depend on the remote object's truth value
     "empty_list": lambda: [], "empty_dict": lambda: {}, "empty_set": lambda: set(), "empty_bytearray": lambda: bytearray(),
     "zero_sub": lambda: MyInt(0), "zero_enum": lambda: Flag.OFF, "quiet": lambda: Quiet(), "hollow": lambda: Hollow(),
@@ -224,6 +225,10 @@ B_KINDS = ["list", "empty_dict", "func"]
 
 
 # ---------------------------------------------------------------------------------------------- one real conversation
+class InvalidCase(Exception):
+    """the conversation itself is ill-formed (e.g. it uses a proxy that was never handed out): not a finding"""
+
+
 class Session:
     """A <-> B over the deterministic network, B served by its own thread; both run classic (slave) services"""
 
@@ -314,6 +319,8 @@ class Session:
         if tag == "t":
             return tuple(self.build(s) for s in spec[1])
         if tag == "p":
+            if spec[1] not in self.held_a:
+                raise InvalidCase("proxy of B's object %r was never handed out" % (spec[1],))
             return self.held_a[spec[1]]
         raise ValueError(spec)
 
@@ -905,6 +912,8 @@ def _oracle_conversation(ops):
                 kept_args = []
             elif kind == "tables":
                 s.fn["ping"]()
+    except InvalidCase:
+        return None
     except Exception as ex:  # noqa
         errs.append("the conversation raised %s: %s" % (type(ex).__name__.split(".")[-1], str(ex)[:100]))
     finally:
